@@ -44,6 +44,30 @@ Fixpoint runes (s : bytes) : list N :=
       else RUNE_ERROR :: runes t
   end.
 
+(* well-formed UTF-8 (utf8.ValidString): the same table, as a recogniser *)
+Fixpoint valid_utf8 (s : bytes) : bool :=
+  match s with
+  | [] => true
+  | b0 :: t =>
+      let x := bn b0 in
+      if x <? 128 then valid_utf8 t
+      else if inr 194 223 b0 then
+        match t with b1 :: t1 => cont b1 && valid_utf8 t1 | [] => false end
+      else if inr 224 239 b0 then
+        match t with
+        | b1 :: b2 :: t2 =>
+            (if x =? 224 then inr 160 191 b1 else if x =? 237 then inr 128 159 b1 else cont b1) && cont b2 && valid_utf8 t2
+        | _ => false
+        end
+      else if inr 240 244 b0 then
+        match t with
+        | b1 :: b2 :: b3 :: t3 =>
+            (if x =? 240 then inr 144 191 b1 else if x =? 244 then inr 128 143 b1 else cont b1) && cont b2 && cont b3 && valid_utf8 t3
+        | _ => false
+        end
+      else false
+  end.
+
 Definition byte_of (n : N) : ascii := ascii_of_N n.
 (* utf8.EncodeRune *)
 Definition encode_rune (r : N) : bytes :=
